@@ -109,7 +109,19 @@ def run(repo: Repo, rep: Report, tier: str) -> None:
     rep.floor("R10.1", 6)
     if len(ser) < 20:
         rep.error(f"only {len(ser)} rows in the serialize decision table")
-    _r10_3(repo, rep)
+    if _r10_3_semantic(repo, rep):
+        from ..core.report import Only as _O
+
+        class _Quiet(_O):
+            def undecide(self, *a, **k):
+                pass
+
+            def floor(self, *a, **k):
+                pass
+
+        _r10_3(repo, _Quiet(rep, {"R10.3"}))
+    else:
+        _r10_3(repo, rep)
     # R10.4 first registrations
     for mod, want in ((M_PACK, "pack_type_with_overridden_serialization"), (M_UNPACK, "unpack_type_with_overridden_deserialization")):
         regs = registered(repo, mod)
@@ -154,6 +166,54 @@ def run(repo: Repo, rep: Report, tier: str) -> None:
     _hc.report(repo, rep, "R10.9", _hc.get_config_contract(repo), "mashumaro.core.meta.code.builder::CodeBuilder.get_config")
     from ..core import helper_contracts as _hc2
     _hc2.report(repo, rep, "R09.6", _hc2.dataclass_fields_contract(repo), "mashumaro.core.meta.code.builder::CodeBuilder.dataclass_fields")
+
+REF_ORDER = ["metadata.get(serialization_strategy)", "B.dialect.serialization_strategy.get(ftype)", "B.get_config().dialect.serialization_strategy.get(ftype)",
+             "B.get_config().serialization_strategy.get(ftype)", "B.default_dialect.serialization_strategy.get(ftype)"]
+
+
+def _r10_3_semantic(repo: Repo, rep: Report) -> bool:
+    """R10.3 decided on the evaluated generator: on every path of iter_serialization_strategies the yielded sequence is
+    the reference order field > call dialect > Config.dialect > Config > default dialect, restricted to the levels that
+    exist on that path (a dialect that is None is skipped), and nothing at all for an unhashable type."""
+    from ..core.pe import Path
+    from ..core.scen import make_eval
+    from ..core.values import Func, Lst, Sym, show
+
+    names = {"iter_serialization_strategies", "__iter_serialization_strategies"}
+    ev = make_eval(repo, inline_depth=3, allow_inline=names)
+    ev.inline_generators = names
+    p = Path()
+    B = ev.builder_obj(p)
+    fi = repo.func(M_BUILDER, "CodeBuilder.iter_serialization_strategies")
+    dummy = ast.parse("f(x)").body[0].value
+    try:
+        res = ev.call_func(Func(fi, self_v=B), [Sym("metadata"), Sym("ftype")], {}, p, dummy, force=True)
+    except Exception:
+        return False
+    decided = False
+    n = 0
+    for v, q in res:
+        if q.ctl == "raise" or not isinstance(v, Lst) or v.open:
+            continue
+        for w in q.worlds():
+            idn = Path._view(w, "I|")
+            at = Path._view(w, "A|")
+            got = [show(i) for i in v.items]
+            absent = {"B.dialect": REF_ORDER[1], "B.get_config().dialect": REF_ORDER[2], "B.default_dialect": REF_ORDER[4]}
+            want = [r for r in REF_ORDER if not any(idn.get(k) == "None" and r == src for k, src in absent.items())]
+            if next((b for k, b in at.items() if "is_hashable(ftype)" in k), True) is False:
+                want = []
+            n += 1
+            decided = True
+            cond = ", ".join(f"{k} is None" for k, val in sorted(idn.items()) if val == "None") or "all levels present"
+            if got == want:
+                rep.ok("R10.3", f"[{cond}{'' if want else ', unhashable type'}] strategies yielded in the order {' > '.join(x.split('.serialization_strategy')[0] for x in got) or '(none)'}", None)
+            else:
+                rep.violation("R10.3", f"{M_BUILDER}::CodeBuilder.__iter_serialization_strategies", f"[{cond}] strategy levels are consulted in the order {got}",
+                              f"documented precedence is field > call dialect > Config.dialect > Config.serialization_strategy > format default dialect: expected {want}; "
+                              "a class with default dialect D must behave like the same class called with dialect=D", loc=fi.loc)
+    return decided and n >= 6
+
 
 def _r10_3(repo: Repo, rep: Report) -> None:
     seq: List[Tuple[str, List[str]]] = []
